@@ -24,6 +24,12 @@ def grammar(run, fam, family='syntax', profiles=('debug',)):
     tlc_replay(run, 'grammar-' + fam, 'MC_Grammar.tla', 'MC_Grammar_%s_%s.cfg' % (fam, run.tier), family, profiles=profiles, xss='256m')
 
 
+def deep(run, family='e2e', profiles=('debug',)):
+    """depth and length boundaries (MC_Deep.tla): d-fold nested operators / subscripts / calls / blocks / definitions, call chains d deep
+    at run time, n statements / blocks / list operands / arguments / poetic words / characters"""
+    tlc_replay(run, 'deep', 'MC_Deep.tla', 'MC_Deep_%s.cfg' % run.tier, family, profiles=profiles, xss='512m', workers=6, timeout_ms=60000)
+
+
 def parser_soup(run, cfgs, profiles=('debug',), family='verdict', env=None):
     """token soup lexed and parsed by the recogniser MODEL (Lexer.tla + Parser.tla); the real parser must give the same verdict:
     accepted with the same tree, or rejected at the same line."""
@@ -213,6 +219,8 @@ def C01(run):
                simulate='num=%d' % n, workers=8, timeout_ms=5000)
     tlc_replay(run, 'total-simsoup', 'MC_Lex.tla', 'MC_Lex_simsoup.cfg', 'total', profiles=('debug', 'release'),
                simulate='num=%d' % n, workers=8, timeout_ms=5000)
+    # "nesting depth within a few hundred levels": the depth / length boundary family as text
+    deep(run, family='total', profiles=('debug', 'release'))
 
 
 def interp(run, fam, family='exec', profiles=('debug',)):
@@ -239,8 +247,15 @@ TRACE_NOTE = ('; recorded runs of seeded random programs far beyond the enumerat
 
 
 def C04(run):
-    run.rule = 'family CF (nested if/else, while, until, break, continue, conditions of every kind, top-level exits); ' + INTERP_NOTE + TRACE_NOTE
+    run.rule = ('family CF (nested if/else, while, until, break, continue, conditions of every kind, top-level exits); family cf-as-text '
+                '(else branches holding nested if/else and further statements, else-if chains inside loops, returns out of nested loops) rendered '
+                'by Grammar.tla under 10 tapes and parsed by the real front end; family IO for errors raised by the streams; '
+                + INTERP_NOTE + TRACE_NOTE)
     interp(run, 'CF')
+    # which statements belong to which branch / loop is decided by the parser: block-structure programs as TEXT through the real front end
+    grammar(run, 'cf', family='e2e')
+    # "an error stops execution at that statement": also an output or input fault (family IO, faults of every kind at every position)
+    interp(run, 'IO')
     interptrace(run)
 
 
@@ -321,6 +336,7 @@ def C09(run):
     # C09 is about crashes only: every replay of this check runs in crash-only mode (a different value or outcome is the business
     # of C03-C08; a panic, abort, debug assertion or hang is a violation here)
     run.replay_env = {'VH_CRASH_ONLY': '1'}
+    run.assumptions += ['call chains deeper than a few hundred activations are outside "modest resource bounds" (about 3 000 overflow the debug build\'s 8 MB stack)']
     run.rule = ('family ILL (44 statement forms x 12 operand variables x 12 parameter variables incl. function/variable name clashes, NaN, '
                 'negative and huge numbers) plus every other interpreter family, in debug and release builds, in supervised worker processes; '
                 + INTERP_NOTE)
@@ -329,6 +345,7 @@ def C09(run):
     # parser-accepted TEXTS: degenerate and long poetic literals, every statement kind in every spelling, value-level corner cases
     grammar(run, 'poetic', family='poeticrun', profiles=('debug', 'release'))
     grammar(run, 'e2e', family='e2e', profiles=('debug', 'release'))
+    deep(run, profiles=('debug', 'release'))
     tlc_replay(run, 'table-C06', 'MC_Table.tla', 'MC_Table_C06_%s.cfg' % run.tier, 'table', profiles=('debug', 'release'))
     tlc_replay(run, 'table-C07', 'MC_Table.tla', 'MC_Table_C07_%s.cfg' % run.tier, 'table', profiles=('debug', 'release'))
     interptrace(run, cfg='InterpTraceCrash.cfg')
